@@ -596,4 +596,229 @@ theorem dropLastEmpty_id (ls : List Str) (h : ls.getLast? ≠ some []) : dropLas
 /-- a final line end adds no line -/
 theorem join_final (sep : Str) (ls : List Str) (h : ls ≠ []) : join sep ls ++ sep = join sep (ls ++ [[]]) := by
   rw [join_snoc sep ls h]; simp
+
+/-! ### one more line at the end leaves the keep flags of the other lines alone -/
+
+/-- `t'` is `t` with one more line `x` at the end: same keep flags on the common part -/
+structure Ext (x : Str) (n : Nat) (t t' : T) : Prop where
+  texts : t'.texts = t.texts ++ [x]
+  len : t.texts.length = n
+  klen : t.keep.length = n
+  keep : ∃ b, t'.keep = t.keep ++ [b]
+
+theorem Ext.setKeep_lt {x : Str} {n : Nat} {t t' : T} (h : Ext x n t t') {i : Nat} (hi : i < n) :
+    Ext x n (setKeep t i) (setKeep t' i) := by
+  obtain ⟨b, hb⟩ := h.keep
+  refine ⟨h.texts, h.len, by simp [setKeep, h.klen], b, ?_⟩
+  simp only [setKeep, hb]
+  rw [List.set_append_left _ _ (by rw [h.klen]; exact hi)]
+
+theorem Ext.setKeep_last {x : Str} {n : Nat} {t t' : T} (h : Ext x n t t') :
+    Ext x n t (setKeep t' n) := by
+  obtain ⟨b, hb⟩ := h.keep
+  refine ⟨h.texts, h.len, h.klen, true, ?_⟩
+  simp only [setKeep, hb]
+  rw [List.set_append_right _ _ (by rw [h.klen]; exact Nat.le_refl _)]
+  simp [h.klen]
+
+theorem Ext.reparent {x : Str} {n : Nat} {t t' : T} (h : Ext x n t t') (p c p' c' : Nat) :
+    Ext x n (reparent t p c) (reparent t' p' c') := ⟨h.texts, h.len, h.klen, h.keep⟩
+
+theorem Ext.reparent_right {x : Str} {n : Nat} {t t' : T} (h : Ext x n t t') (p' c' : Nat) :
+    Ext x n t (Tree.reparent t' p' c') := ⟨h.texts, h.len, h.klen, h.keep⟩
+
+theorem ext_bannerWalk {x : Str} {n : Nat} (d : Char) (p : Nat) :
+    ∀ (rest : List Str) (idx : Nat) (t t' : T), Ext x n t t' → idx + rest.length = n →
+      Ext x n (bannerWalk d p idx rest t) (bannerWalk d p idx (rest ++ [x]) t') := by
+  intro rest
+  induction rest with
+  | nil =>
+    intro idx t t' h hn
+    have : idx = n := by simpa using hn
+    subst this
+    simp only [List.nil_append, bannerWalk]
+    split
+    · exact h.reparent_right _ _
+    · exact (h.reparent_right _ _).setKeep_last
+  | cons txt rest ih =>
+    intro idx t t' h hn
+    simp only [List.cons_append, bannerWalk]
+    split
+    · exact h.reparent _ _ _ _
+    · apply ih
+      · exact (h.reparent _ _ _ _).setKeep_lt (by simp at hn; omega)
+      · simp at hn; omega
+
+theorem ext_markBanner {x : Str} {n : Nat} {t t' : T} (h : Ext x n t t') {p : Nat} (hp : p < n) (txt : Str) :
+    Ext x n (markBanner t p txt) (markBanner t' p txt) := by
+  unfold markBanner
+  have hk := h.setKeep_lt hp
+  split
+  · exact hk
+  · split
+    · exact hk
+    · have hd : (setKeep t' p).texts.drop (p + 1) = (setKeep t p).texts.drop (p + 1) ++ [x] := by
+        show t'.texts.drop (p + 1) = t.texts.drop (p + 1) ++ [x]
+        rw [h.texts, List.drop_append_of_le_length (by rw [h.len]; omega)]
+      simp only []
+      rw [hd]
+      apply ext_bannerWalk _ _ _ _ _ _ hk
+      show p + 1 + (t.texts.drop (p + 1)).length = n
+      rw [List.length_drop, h.len]; omega
+
+theorem bannerWalk_nil (d : Char) (p idx : Nat) (t : T) : bannerWalk d p idx [] t = t := rfl
+
+theorem ext_markBanner_last {x : Str} {n : Nat} {t t' : T} (h : Ext x n t t') (txt : Str) :
+    Ext x n t (markBanner t' n txt) := by
+  unfold markBanner
+  have hk := h.setKeep_last
+  have hd : (setKeep t' n).texts.drop (n + 1) = [] := by
+    show t'.texts.drop (n + 1) = []
+    rw [h.texts]; apply List.drop_of_length_le; simp [h.len]
+  split
+  · exact hk
+  · split
+    · exact hk
+    · simp only []
+      rw [hd]; exact hk
+
+theorem ext_markBannersFrom {x : Str} {n : Nat} :
+    ∀ (l : List Str) (i : Nat) (t t' : T), Ext x n t t' → i + l.length = n →
+      Ext x n (markBannersFrom i l t) (markBannersFrom i (l ++ [x]) t') := by
+  intro l
+  induction l with
+  | nil =>
+    intro i t t' h hn
+    have : i = n := by simpa using hn
+    subst this
+    simp only [List.nil_append, markBannersFrom]
+    split
+    · exact ext_markBanner_last h _
+    · exact h
+  | cons txt rest ih =>
+    intro i t t' h hn
+    simp only [List.cons_append, markBannersFrom]
+    apply ih
+    · split
+      · exact ext_markBanner h (by simp at hn; omega) _
+      · exact h
+    · simp at hn; omega
+
+theorem ext_macroWalk {x : Str} {n : Nat} (p : Nat) :
+    ∀ (rest : List Str) (idx : Nat) (t t' : T), Ext x n t t' → idx + rest.length = n →
+      Ext x n (macroWalk p idx rest t) (macroWalk p idx (rest ++ [x]) t') := by
+  intro rest
+  induction rest with
+  | nil =>
+    intro idx t t' h hn
+    have : idx = n := by simpa using hn
+    subst this
+    simp only [List.nil_append, macroWalk]
+    split
+    · exact h.setKeep_last.reparent_right _ _
+    · exact h.setKeep_last.reparent_right _ _
+  | cons txt rest ih =>
+    intro idx t t' h hn
+    simp only [List.cons_append, macroWalk]
+    have hk := (h.setKeep_lt (i := idx) (by simp at hn; omega)).reparent p idx p idx
+    split
+    · exact hk
+    · exact ih _ _ _ hk (by simp at hn; omega)
+
+theorem ext_markMacrosFrom {x : Str} {n : Nat} :
+    ∀ (l : List Str) (i : Nat) (t t' : T), Ext x n t t' → i + l.length = n →
+      Ext x n (markMacrosFrom i l t) (markMacrosFrom i (l ++ [x]) t') := by
+  intro l
+  induction l with
+  | nil =>
+    intro i t t' h hn
+    have : i = n := by simpa using hn
+    subst this
+    simp only [List.nil_append, markMacrosFrom]
+    split
+    · have hd : t'.texts.drop (i + 1) = [] := by
+        rw [h.texts]; apply List.drop_of_length_le; simp [h.len]
+      rw [hd]
+      exact h.setKeep_last
+    · exact h
+  | cons txt rest ih =>
+    intro i t t' h hn
+    simp only [List.cons_append, markMacrosFrom]
+    apply ih
+    · split
+      · have hi : i < n := by simp at hn; omega
+        have hd : t'.texts.drop (i + 1) = t.texts.drop (i + 1) ++ [x] := by
+          rw [h.texts, List.drop_append_of_le_length (by rw [h.len]; omega)]
+        rw [hd]
+        apply ext_macroWalk _ _ _ _ _ (h.setKeep_lt hi)
+        show i + 1 + (t.texts.drop (i + 1)).length = n
+        rw [List.length_drop, h.len]; omega
+      · exact h
+    · simp at hn; omega
+
+theorem ext_link (cfg : Cfg) (M : List Str) (x : Str) : Ext x M.length (link cfg M) (link cfg (M ++ [x])) := by
+  unfold link markMacros markBanners
+  have h0 : Ext x M.length
+      { texts := M, parents := linkByIndent cfg M, keep := M.map (fun _ => false) }
+      { texts := M ++ [x], parents := linkByIndent cfg (M ++ [x]), keep := (M ++ [x]).map (fun _ => false) } :=
+    ⟨rfl, rfl, by simp, false, by simp⟩
+  have h1 := ext_markBannersFrom M 0 _ _ h0 (by simp)
+  split
+  · have ht := h1.texts
+    have hl := h1.len
+    simp only [] at ht hl ⊢
+    rw [ht]
+    refine ext_markMacrosFrom _ 0 _ _ h1 ?_
+    simpa using hl
+  · exact h1
+
+theorem keptTexts_ext {n : Nat} {t t' : T} (h : Ext [] n t t') :
+    ∃ b : Bool, keptTexts t' = keptTexts t ++ (if b then [[]] else []) := by
+  obtain ⟨b, hb⟩ := h.keep
+  refine ⟨b, ?_⟩
+  unfold keptTexts
+  rw [h.texts, hb, List.zip_append (by rw [h.len, h.klen]), List.filterMap_append]
+  congr 1
+  cases b <;> simp [strip, lstrip, rstrip]
+
+theorem settled_kept (cfg : Cfg) (M : List Str) (h : Settled cfg M) : keptTexts (link cfg M) = M := by
+  have hs := keptTexts_sublist (link cfg M)
+  rw [link_texts_eq] at hs
+  exact hs.eq_of_length h
+
+/-- appending one empty line to the kept lines of an object: the line is kept or dropped, the
+other lines stay -/
+theorem texts_snoc (cfg : Cfg) (ls : List Str) :
+    texts cfg (texts cfg ls ++ [[]]) = texts cfg ls ∨ texts cfg (texts cfg ls ++ [[]]) = texts cfg ls ++ [[]] := by
+  cases hi : cfg.ignoreBlank with
+  | false => right; rw [texts_noIgnore cfg hi, texts_noIgnore cfg hi]
+  | true =>
+    have hM : Settled cfg (texts cfg ls) := (texts_eq_bootstrap cfg hi ls).2
+    generalize texts cfg ls = M at hM
+    obtain ⟨b, hb⟩ := keptTexts_ext (ext_link cfg M [])
+    rw [settled_kept cfg M hM] at hb
+    cases b with
+    | true =>
+      right
+      apply texts_settled
+      show (keptTexts (link cfg (M ++ [[]]))).length = (M ++ [[]]).length
+      rw [hb]; simp
+    | false =>
+      left
+      have hk : keptTexts (link cfg (M ++ [[]])) = M := by simpa using hb
+      have hb1 : bootstrap cfg (M ++ [[]]) = link cfg M := by
+        unfold bootstrap
+        have hlen : (M ++ [([] : Str)]).length = M.length + 1 := by simp
+        rw [hlen]
+        simp only [bootstrapFuel, hi, if_true, hk]
+        have : (M.length != (M ++ [[]]).length) = true := by simp
+        rw [if_pos this]
+        exact bootstrapFuel_settled cfg _ M hM
+      show (bootstrap cfg (bootstrap cfg (M ++ [[]])).texts).texts = M
+      rw [hb1, link_texts_eq]
+      unfold bootstrap
+      rw [bootstrapFuel_settled cfg _ M hM, link_texts_eq]
+
+theorem stable_texts (cfg : Cfg) : Stable (texts cfg) :=
+  ⟨texts_sublist cfg, texts_idem cfg, texts_snoc cfg⟩
 end Ccp.Input
